@@ -122,15 +122,19 @@ advance, EOF at a segment end that is not the file end becomes nil. -/
 theorem tie_filenodeRead : filenodeReadText =
     "{ ptr = fn.seek(startPtr) if ptr.off < 0 { err = ErrNegativeOffset return } if ptr.segmentIdx >= len(fn.segments) { err = io.EOF return } n, err = fn.segments[ptr.segmentIdx].ReadAt(p, int64(ptr.segmentOff)) if n > 0 { ptr.off += int64(n) ptr.segmentOff += n if ptr.segmentOff == fn.segments[ptr.segmentIdx].Len() { ptr.segmentIdx++ ptr.segmentOff = 0 if ptr.segmentIdx < len(fn.segments) && err == io.EOF { err = nil } } } return }" := rfl
 
-/-- filenode.seek (Model.seek / locate) and filehandle.Seek (Model.fileSeek: a changed offset marks
-the pointer stale, `repacked = -1`). -/
+/-- filenode.seek (Model.seek / locate) and filehandle.Seek (Model.fileSeek / fileSeekW: the three
+whences, a negative target is refused with the old offset, a changed offset — and nothing else — marks
+the pointer stale, `repacked = -1`; the segment position is never adjusted by Seek). -/
 theorem tie_filenodeSeek :
     filenodeSeekConds = ["if ptr.off < 0", "if ptr.off >= fn.fileinfo.size", "if ptr.repacked == fn.repacked",
       "if ptr.segmentOff >= fn.segments[ptr.segmentIdx].Len()", "if ptr.off >= fn.fileinfo.size",
       "for off < ptr.off", "if off+segLen > ptr.off"] ∧
     filehandleReadCalls = ["f.inode.RLock", "f.inode.RUnlock", "f.inode.Read"] ∧
     filehandleSeekAssigns = ["size := f.inode.Size()", "ptr := f.ptr", "ptr.off = off", "ptr.off += off",
-      "ptr.off = size + off", "f.ptr = ptr", "f.ptr.repacked = -1"] := ⟨rfl, rfl, rfl⟩
+      "ptr.off = size + off", "f.ptr = ptr", "f.ptr.repacked = -1"] ∧
+    filehandleSeekConds = ["switch whence", "case io.SeekStart", "case io.SeekCurrent", "case io.SeekEnd",
+      "if ptr.off < 0", "if ptr.off != f.ptr.off"] ∧
+    filehandleSeekReturns = ["f.ptr.off, ErrNegativeOffset", "f.ptr.off, nil"] := ⟨rfl, rfl, rfl, rfl, rfl⟩
 
 /-- loadManifest's stream-offset → block-segment loop (Model.walkBlocks / loadTokensN): these
 conditions occur, in this order (other parse conditions of loadManifest belong to C10). -/
